@@ -500,6 +500,13 @@ class Evaluator:
                     for bnd in pat_bindings(st['pat']):
                         env[bnd['id']] = ('uninit', bnd['id'])
                     continue
+                lm = self.let_match_return(st, init, env, body, depth) if st.get('els') is None else None
+                if lm is not None:
+                    cond, elsev, v = lm
+                    self.bind(st['pat'], v, env)
+                    rest = {'k': 'Block', 'stmts': stmts[idx + 1:], 'expr': b.get('expr')}
+                    restv = self.with_pc([cond], lambda: self.ev_block(rest, env, body, depth))
+                    return self.join(T.tnot(cond), elsev, restv)
                 v = self.ev(init, env, body, depth)
                 if st.get('els') is not None:
                     # let PAT = init else { <diverges> };   ==   if !(init matches PAT) { <diverges> }  then bind
@@ -554,6 +561,47 @@ class Evaluator:
                 return self.join(cond, ('ret', val), v)
             return v
         return ('unit',)
+
+    def let_match_return(self, st, init, env, body, depth):
+        """`let PAT = match s { P [if g] => v, _ => return r };`  is  `if !(s matches P && g) { return r }; let PAT = v;`
+        (the let-else spelled as a match).  Returns (cond, ('ret', r), v) or None when the statement has another shape."""
+        e = init
+        while e.get('k') in ('DropTemps', 'Use'):
+            e = e['e']
+        if e.get('k') != 'Match' or e.get('src', '') not in ('', 'Normal') or len(e.get('arms', [])) != 2:
+            return None
+        a0, a1 = e['arms']
+        if a1['pat'].get('k') != 'Wild' or a1.get('guard') is not None:
+            return None
+        rb = a1['body']
+        while rb.get('k') in ('DropTemps', 'Use') or (rb.get('k') == 'Block' and not rb.get('stmts') and rb.get('expr') is not None):
+            rb = rb['e'] if rb.get('k') != 'Block' else rb['expr']
+        if rb.get('k') != 'Ret':
+            return None
+        if a0['body'].get('ty') == '!':
+            return None
+        scrut = self.ev(e['scrut'], env, body, depth)
+        cond = self.full_pattern_cond(a0['pat'], scrut)
+        if cond is None:
+            return None
+        env_a = dict(env)
+        self.bind(a0['pat'], scrut, env_a)
+        if a0.get('guard') is not None:
+            g = self.with_pc([cond], lambda: self.ev(a0['guard'], env_a, body, depth))
+            if not T.is_bool(g):
+                g = T.unroot(g)
+            cond = T.tand(cond, g)
+
+        def inner():
+            rv = self.ev(rb['e'], env, body, depth) if rb.get('e') else ('unit',)
+            self.emit('ret', rb, body, value=rv, joined=True)
+            return ('ret', rv)
+        elsev = self.with_pc([T.tnot(cond)], inner)
+        v = self.with_pc([cond], lambda: self.ev(a0['body'], env_a, body, depth))
+        for kid in env:
+            if kid in env_a and env_a[kid] != env[kid]:
+                env[kid] = env_a[kid]
+        return cond, elsev, v
 
     def early_return(self, e, env, body, depth):
         """`if c { return v; }` or `if c { <diverges> }` (assert!) in statement position -> (c, v)"""
